@@ -202,6 +202,7 @@ deriving Repr, Inhabited
 structure Stats where
   active : List (Nat × Nat × Nat)   -- (collect id, buffered span sets, parked items), sorted
   receivers : Nat
+  parkedCancels : Nat := 0          -- notes in `PARKED_CANCELS`
 deriving Repr, DecidableEq, Inhabited
 
 inductive Obs where
@@ -397,7 +398,8 @@ def Sys.runClosure (s : Sys) (t : Nat) (cl : Closure) : Sys :=
 def Sys.statsOf (s : Sys) : Stats :=
   { active := (s.coll.active.map fun e => (e.1, e.2.collections.length,
       (e.2.danglings.map (·.2.length)).foldl (· + ·) 0)),
-    receivers := s.rxs.length }
+    receivers := s.rxs.length,
+    parkedCancels := s.parkedCancels.length }
 
 def Cmd.isCommit : Cmd → Bool
   | .commit _ => true
